@@ -153,6 +153,61 @@ def check(c):
                                         f'{S}:Scheduler.check_auto_shutdown'),
              c.where(n, f), '')
 
+    # ---- the manual-trigger exemption is consumed (necessary for "a ready
+    # task is not left unsubmitted": queue_if_ready skips manual tasks, so a
+    # task that falls back to waiting for a submission retry must no longer
+    # carry the flag)
+    tjm = 'task_job_mgr'
+    after_submission = {
+        # reached only after submit_livelike_task_jobs queued the job row
+        # (where the flag is reset) or for jobs that were already submitted
+        f'{tjm}:TaskJobManager._submit_task_job_callback',
+        f'{tjm}:TaskJobManager._kill_task_job_callback',
+        f'{tjm}:TaskJobManager._poll_task_job_callback',
+    }
+    senders = [n for n in c.calls(tjm, 'process_message')
+               if any(norm(a).endswith('EVENT_SUBMIT_FAILED')
+                      for a in n.args)]
+    c.floor('C03.manual-exemption-consumed', 'submit-failed senders in '
+            'task_job_mgr', len(senders), 4)
+
+    def is_reset(s):
+        return isinstance(s, ast.Assign) and norm(
+            s.targets[0]) == 'itask.is_manual_submit' and norm(
+            s.value) == 'False'
+    for n in senders:
+        f = c.owner(n)
+        if f.fq in after_submission:
+            c.ob('C03.manual-exemption-consumed', c.key(n, f)[:140] +
+                 ' [after submission]', True, c.where(n, f),
+                 'flag already reset when the job row was queued')
+            continue
+        ok = c.cfg(f).dominated_by(c.idx.stmt_of(n), is_reset)
+        c.ob('C03.manual-exemption-consumed', c.key(n, f)[:140] +
+             ' after is_manual_submit = False', ok, c.where(n, f),
+             'flag reset before the task can fall back to waiting' if ok else
+             'a preparation failure with a submission retry lined up returns '
+             'the task to waiting still flagged as manually triggered: '
+             'queue_if_ready skips it forever, no stall is reported and the '
+             'scheduler never shuts down')
+    sl = c.func(tjm, 'TaskJobManager.submit_livelike_task_jobs')
+    for p in c.calls(sl, 'put_command'):
+        def rec_loop(s):
+            return isinstance(s, ast.For) and any(
+                is_reset(x) for x in ast.walk(s)) and any(
+                isinstance(x, ast.Call) and isinstance(x.func, ast.Attribute)
+                and x.func.attr == 'put_insert_task_jobs'
+                for x in ast.walk(s))
+        c.ob('C03.manual-exemption-consumed', c.key(p, sl)[:100] +
+             ' after the flag reset loop',
+             c.cfg(sl).dominated_by(c.idx.stmt_of(p), rec_loop),
+             c.where(p, sl), '')
+    qir = c.func(TP, 'TaskPool.queue_if_ready')
+    c.floor('C03.manual-exemption-consumed', 'queue_if_ready skips manual '
+            'tasks (the exemption this clause protects)', len([
+                n for n in c.calls(qir, 'queue_task')
+                if c.holds(n, '!itask.is_manual_submit')]), 1)
+
     # ---- retention
     ric = c.func(TP, 'TaskPool.remove_if_complete')
     rms = c.find(ric, 'self.remove(itask)')
